@@ -214,6 +214,9 @@ func c10Random(r *kit.Rand, idx int) c10Case {
 					cand = append(cand, fl)
 				}
 			}
+			if len(cand) == 0 {
+				continue
+			}
 			fl := kit.Pick(r, cand)
 			v := kit.Pick(r, c10Hostile)
 			if r.Chance(1, 3) {
